@@ -17,6 +17,7 @@
 mod priv_body { include!("/repo/src/http_client/body.rs"); include!("priv_body_ext.rs"); }
 mod priv_splitter { include!("/repo/src/util/stream_splitter.rs"); include!("priv_splitter_ext.rs"); }
 
+mod priv_metadata { include!("/repo/src/storage/metadata.rs"); include!("priv_metadata_ext.rs"); }
 mod priv_sync { include!("/repo/src/uploading/sync.rs"); }
 
 mod ops;
